@@ -755,10 +755,15 @@ V("C06", "superpose-displaced-not-centred", TRJ, """        if self_align_xyz.ct
 """, "", "C06-R2")
 V("C06", "superpose-ref-offset-not-restored", TRJ, "        self_displace_xyz += ref_offset\n", "", "C06-R2")
 V("C06", "superpose-float32-offset", TRJ, "offset = np.mean(self_align_xyz, axis=1, dtype=np.float64).reshape(", "offset = np.mean(self_align_xyz, axis=1).reshape(", "C06-R2")
-V("C06", "superpose-traces-before-centring", TRJ, """        self_align_xyz -= offset
+V("C06", "superpose-traces-before-centring", TRJ, None, None, "C06-R2", edits=[("""        self_align_xyz -= offset
         if self_align_xyz.ctypes.data != self_displace_xyz.ctypes.data:""", """        self_g = np.einsum("ijk,ijk->i", self_align_xyz, self_align_xyz)
         self_align_xyz -= offset
-        if self_align_xyz.ctypes.data != self_displace_xyz.ctypes.data:""", "C06-R2")
+        if self_align_xyz.ctypes.data != self_displace_xyz.ctypes.data:"""), ("""        self_g = np.einsum("ijk,ijk->i", self_align_xyz, self_align_xyz)
+        ref_g =""", """        ref_g =""")])
+V("C06", "twin-superpose-dead-early-trace", TRJ, """        self_align_xyz -= offset
+        if self_align_xyz.ctypes.data != self_displace_xyz.ctypes.data:""", """        self_g = np.einsum("ijk,ijk->i", self_align_xyz, self_align_xyz)
+        self_align_xyz -= offset
+        if self_align_xyz.ctypes.data != self_displace_xyz.ctypes.data:""", None)
 V("C06", "traces-used-with-atom-selection", RPYX, "    if precentered and (reference._rmsd_traces is not None) and (target._rmsd_traces is not None) and atom_indices_is_none:\n        target_g = np.asarray(target._rmsd_traces, order='C', dtype=np.float32)\n        ref_g = reference._rmsd_traces[frame]\n    else:\n        if precentered:\n            warnings.warn(\n                'in rmsd(), precentered is ignored when atom_indices != None',\n                RuntimeWarning)\n        target_g = np.empty(target_n_frames, dtype=np.float32)\n        inplace_center_and_trace_atom_major(&target_xyz[0,0,0], &target_g[0], target_n_frames, n_atoms)\n        inplace_center_and_trace_atom_major(&ref_xyz_frame[0, 0], &ref_g, 1, n_atoms)\n\n    # t1 = time.time()\n\n    cdef float[:] distances",
   "    if precentered and (reference._rmsd_traces is not None) and (target._rmsd_traces is not None):\n        target_g = np.asarray(target._rmsd_traces, order='C', dtype=np.float32)\n        ref_g = reference._rmsd_traces[frame]\n    else:\n        if precentered:\n            warnings.warn(\n                'in rmsd(), precentered is ignored when atom_indices != None',\n                RuntimeWarning)\n        target_g = np.empty(target_n_frames, dtype=np.float32)\n        inplace_center_and_trace_atom_major(&target_xyz[0,0,0], &target_g[0], target_n_frames, n_atoms)\n        inplace_center_and_trace_atom_major(&ref_xyz_frame[0, 0], &ref_g, 1, n_atoms)\n\n    # t1 = time.time()\n\n    cdef float[:] distances", "C06-R3", "rmsd")
 V("C06", "K-entry-sign", THC, "    float k01 =  M[1+2*m ] - M[2+1*m];", "    float k01 =  M[2+1*m ] - M[1+2*m];", "C06-R4")
